@@ -353,7 +353,56 @@ func (w *Walker) instr(in ssa.Instruction, c *FCtx, fl *Flow, facts Facts, path 
 	switch x := in.(type) {
 	case *ssa.Return:
 		if in.Parent() == w.entryFn && len(path) == 1 {
-			w.emit(&Effect{Kind: "return", Name: "return:" + shortName(w.entryFn), Args: c.args(x.Results), Instr: in, Facts: facts.Clone(), Path: path, C: c, Flow: fl})
+			// a conditional return value (a helper's "nil unless found" result inlined as ite) is one return per case,
+			// each with its condition known
+			type alt struct {
+				args  []*Term
+				facts Facts
+			}
+			alts := []alt{{c.args(x.Results), facts.Clone()}}
+			for round := 0; round < 3; round++ {
+				var next []alt
+				changed := false
+				for _, al := range alts {
+					split := -1
+					for i, t := range al.args {
+						if t.Op == "ite" && len(t.Args) == 3 {
+							split = i
+							break
+						}
+					}
+					if split < 0 || len(alts) >= 6 {
+						next = append(next, al)
+						continue
+					}
+					changed = true
+					t := al.args[split]
+					for bi, br := range []*Term{t.Args[1], t.Args[2]} {
+						na := append([]*Term{}, al.args...)
+						na[split] = br
+						nf := al.facts.Clone()
+						if ca := atomOf(t.Args[0], a.P.InstrPos(in)); ca != nil {
+							if bi == 1 {
+								ca = ca.Negate()
+							}
+							if nf.Has(ca.Negate()) != nil {
+								continue // this case is excluded on this path
+							}
+							nf.Add(ca)
+							addConjuncts(nf, ca)
+							fl.addDerived(nf, ca)
+						}
+						next = append(next, alt{na, nf})
+					}
+				}
+				alts = next
+				if !changed {
+					break
+				}
+			}
+			for _, al := range alts {
+				w.emit(&Effect{Kind: "return", Name: "return:" + shortName(w.entryFn), Args: al.args, Instr: in, Facts: al.facts, Path: path, C: c, Flow: fl})
+			}
 		}
 	case *ssa.Store:
 		if l := a.addrLoc(x.Addr); l != "" {
@@ -467,8 +516,8 @@ func (w *Walker) instr(in ssa.Instruction, c *FCtx, fl *Flow, facts Facts, path 
 			if f.Blocks == nil || !inLibraryScope(funcPkgPath(f)) || isSpecTypesPkg(funcPkgPath(f)) {
 				continue
 			}
-			if a.effectFree[f] || w.NoDescend[shortName(f)] {
-				continue
+			if (a.effectFree[f] && !a.reachesQuorumTest(f)) || w.NoDescend[shortName(f)] {
+				continue // (pure helpers are walked only when a quorum test sits inside them: G7 judges every such test)
 			}
 			if onPath[f] {
 				w.emit(&Effect{Kind: "recursion", Name: shortName(f), Args: args, Instr: in, Facts: facts.Clone(), Path: path, C: c, Flow: fl})
@@ -795,4 +844,37 @@ func noteVisited(fn *ssa.Function) {
 	visitedMu.Lock()
 	visitedAll[funcID(fn)] = true
 	visitedMu.Unlock()
+}
+
+// reachesQuorumTest: f (transitively, through library code) calls quorum.IsQuorum / quorum.HasHonest.
+func (a *Analyzer) reachesQuorumTest(f *ssa.Function) bool {
+	if a.quorumReach == nil {
+		a.quorumReach = map[*ssa.Function]int{}
+	}
+	var visit func(g *ssa.Function, depth int) bool
+	visit = func(g *ssa.Function, depth int) bool {
+		if v, ok := a.quorumReach[g]; ok {
+			return v == 1
+		}
+		a.quorumReach[g] = 2 // in progress: treated as "no" on cycles
+		res := false
+		sn := shortName(g)
+		if sn == "quorum.IsQuorum" || sn == "quorum.HasHonest" {
+			res = true
+		} else if depth < 8 {
+			for _, h := range a.calleesOf(g) {
+				if visit(h, depth+1) {
+					res = true
+					break
+				}
+			}
+		}
+		if res {
+			a.quorumReach[g] = 1
+		} else {
+			a.quorumReach[g] = 0
+		}
+		return res
+	}
+	return visit(f, 0)
 }
